@@ -166,6 +166,12 @@ func (s *Stream) reset() {
 	s.conn = nil
 	s.src.Reset()
 	s.dst.Reset()
+
+	// Frames queued by a previous session (e.g. a close frame that was never flushed) do not belong to the next one.
+	for _, f := range s.pendingFrames {
+		s.releaseFrame(f)
+	}
+	s.pendingFrames = s.pendingFrames[:0]
 }
 
 // Returns the stream through which IO is done.
